@@ -616,6 +616,25 @@ def rule_retrieve_all_branches(db: ProgramDB) -> List[Instance]:
                         "when the lookup does not bind a key and a wildcard entry exists at that level, only the wildcard "
                         "branch is followed: the entries that bind the key are not returned (" + " ".join(cfg.describe_path(bad)[:3]) + ")" if bad else
                         "when the lookup does not bind a key, every child of the node is visited", line=t.lineno))
+    # (b') the walk may collect the children to follow in a list first and descend in one loop afterwards: then which children are
+    # followed is a matter of what the list holds, not of which statement is reached.  Decided by running the statements that build
+    # the list for the four situations (an entry under the looked-up value: yes / no; an entry that leaves the key open: yes / no).
+    collected = _branches_collected(db, m, ap)
+    if collected is not None:
+        res, where = collected
+        both_ok = {"concrete", "wild"} <= res[(True, True)]
+        miss_ok = "wild" in res[(False, True)]
+        conc_ok = "concrete" in res[(True, False)]
+        out.append(inst("RETRIEVE-ALL-BRANCHES", HOLDS if miss_ok else VIOLATION, m, "IndexedCache.retrieve[bound key absent: the wildcard child is followed]",
+                        "when nothing is stored under the looked-up value, the entry that leaves the key open is followed" if miss_ok else
+                        "when nothing is stored under the looked-up value, the list of children to follow stays without the wildcard child: a row stored under a binding "
+                        "that leaves this key open is reported as covered and then not returned - rows are lost with caching on", line=where))
+        out.append(inst("RETRIEVE-ALL-BRANCHES", HOLDS if both_ok and conc_ok else VIOLATION, m, "IndexedCache.retrieve[bound key: wildcard only if concrete missing]",
+                        "a bound key follows the child of the looked-up value and the wildcard child, whichever exist" if both_ok and conc_ok else
+                        f"when the lookup binds a key and both an entry for the looked-up value and an entry that leaves the key open exist, the children followed are "
+                        f"{sorted(res[(True, True)]) or 'none'}: the other entry is not returned next to it (an operator that stored a row while the key was unbound "
+                        f"and other rows with it bound loses the row on a cache hit)", line=where))
+        return out
     # (b)
     conc = [nd for nd in cfg.nodes if is_concrete(nd)]
     if not conc:
@@ -666,6 +685,78 @@ def rule_retrieve_all_branches(db: ProgramDB) -> List[Instance]:
                     "the wildcard child is looked at on every path that descends into the child of the looked-up value",
                     line=bad[0].lineno if bad else m.lineno))
     return out
+
+
+def rule_retrieve_bound_branches(db: ProgramDB) -> List[Instance]:
+    """The clauses of RETRIEVE-ALL-BRANCHES about a key the lookup BINDS (the ones the operators' caches depend on: a row stored while a
+    variable was unbound next to rows stored with it bound)."""
+    return [i for i in rule_retrieve_all_branches(db) if "unbound key" not in i.construct]
+
+
+def _branches_collected(db: ProgramDB, m: FuncInfo, ap: str, unbound: bool = False):
+    """If retrieve() collects the children to follow for a BOUND key (or, unbound=True, for a key the lookup leaves open) in a local list:
+    {(concrete?, wildcard?): set of tags in the list}, line.  Tags: 'concrete', 'wild', 'all' (every child of the level)."""
+    from ..boolexpr import eval_bool
+    bound_ifs = [x for x in own_nodes(m.node) if isinstance(x, ast.If) and isinstance(x.test, ast.Compare) and len(x.test.ops) == 1
+                 and isinstance(x.test.ops[0], ast.In) and unparse(x.test.comparators[0]) == ap]
+    if len(bound_ifs) != 1:
+        return None
+    arm = bound_ifs[0].body
+    lists = [a.targets[0].id for a in arm if isinstance(a, ast.Assign) and len(a.targets) == 1 and isinstance(a.targets[0], ast.Name)
+             and isinstance(a.value, ast.List) and not a.value.elts]
+    if len(lists) != 1:
+        return None
+    L = lists[0]
+    if unbound:
+        arm = bound_ifs[0].orelse
+    if not any(isinstance(f, ast.For) and unparse(f.iter) == L for f in own_nodes(m.node)):
+        return None
+    res = {}
+    for C in (False, True):
+        for W in (False, True):
+            held: Set[str] = set()
+
+            def atom(e):
+                if isinstance(e, ast.Compare) and len(e.ops) == 1 and isinstance(e.ops[0], (ast.In, ast.NotIn)) and "cache" in unparse(e.comparators[0]):
+                    l = unparse(e.left)
+                    a = "W" if l in ("All", "ALL") else ("C" if l.startswith(ap + "[") else None)
+                    if a:
+                        return ("!" if isinstance(e.ops[0], ast.NotIn) else "") + a
+                if isinstance(e, ast.Name) and e.id == L:
+                    return "L"
+                return None
+
+            def run(stmts):
+                for st in stmts:
+                    if isinstance(st, ast.If):
+                        try:
+                            t = bool(eval_bool(st.test, atom, {"C": C, "W": W, "L": bool(held)}))
+                        except AnalysisError:
+                            raise
+                        run(st.body if t else st.orelse)
+                    elif isinstance(st, ast.Expr) and isinstance(st.value, ast.Call) and call_attr(st.value) in ("append", "add") and unparse(st.value.func.value) == L:
+                        src = unparse(st.value.args[0]) if st.value.args else ""
+                        if "cache[All]" in src or "cache[ALL]" in src or "cache.get(All" in src:
+                            held.add("wild")
+                        elif f"cache[{ap}[" in src or "cache.get(" + ap in src:
+                            held.add("concrete")
+                        else:
+                            held.add("?" + src[:20])
+                    elif isinstance(st, ast.Assign) and any(isinstance(t, ast.Name) and t.id == L for t in st.targets):
+                        held.clear()
+                        if isinstance(st.value, ast.List):
+                            for e_ in st.value.elts:
+                                u = unparse(e_)
+                                held.add("wild" if "cache[All]" in u else "concrete" if f"cache[{ap}[" in u else "?")
+                        elif any(isinstance(c_, ast.Call) and call_attr(c_) in ("items", "values", "keys") and "cache" in unparse(c_.func.value) for c_ in ast.walk(st.value)):
+                            excl = any(isinstance(c_, ast.Compare) and any(unparse(o) in ("All", "ALL") for o in [c_.left] + c_.comparators) for c_ in ast.walk(st.value))
+                            held.add("all-but-wild" if excl else "all")
+            try:
+                run(arm)
+            except AnalysisError:
+                return None
+            res[(C, W)] = set(held)
+    return res, bound_ifs[0].lineno
 
 
 # ---------------------------------------------------------------------------------- REPLAY-DEDUP
@@ -792,8 +883,13 @@ def rule_replay_dedup(db: ProgramDB) -> List[Instance]:
                 return "D"
             if isinstance(e, ast.Name) and e.id in m.params:
                 return "p:" + e.id
+            if isinstance(e, ast.Compare) and len(e.ops) == 1 and isinstance(e.ops[0], (ast.In, ast.NotIn)) and isinstance(e.comparators[0], ast.Name) \
+                    and e.comparators[0].id not in m.params:
+                # membership in a set local to this call (the rows this replay has handed on already): the question is about a row
+                # that comes up for the first time in the call
+                return ("!" if isinstance(e.ops[0], ast.NotIn) else "") + "AGAIN"
             return None
-        env = {"F": False, "D": True}
+        env = {"F": False, "D": True, "AGAIN": False}
         g = guards_of(dedup_if, loop.body) or []
         used = {x.id for t in [dedup_if.test] + [t for t, _ in g] for x in ast.walk(t) if isinstance(x, ast.Name)}
         for p in [q for q in m.params if q in used]:
@@ -1289,6 +1385,17 @@ def rule_replay_one_entry(db: ProgramDB) -> List[Instance]:
         return out
     cfg = CFG(ret)
     ap = "assignment" if "assignment" in ret.params else ret.positional_params[1]
+    coll = _branches_collected(db, ret, ap, unbound=True)
+    if coll is not None:
+        res, where = coll
+        with_wild = res[(False, True)] | res[(True, True)]
+        bad_c = "all" in with_wild or ("wild" in with_wild and ("all-but-wild" in with_wild or "concrete" in with_wild))
+        out.append(inst("REPLAY-ONE-ENTRY", VIOLATION if bad_c else HOLDS, ret, "IndexedCache.retrieve[open key: one family of children]",
+                        f"when the lookup leaves a key open and an entry that leaves it open too exists, the children followed are {sorted(with_wild)}: the open entry AND the entries "
+                        f"that bind the key - a result stored under a partial row and under the full row comes back as two different rows (the open one is completed "
+                        f"with every value of the variable later), and {p2.short} hands both on: every object twice on the third evaluation of and_(x.w > 5, x.colour == 'red')" if bad_c else
+                        "when the lookup leaves a key open, either the open entry or the entries that bind the key are followed", line=where))
+        return out
 
     def excludes_wild(e) -> bool:
         src = cfg.nodes[e.src]
@@ -1362,7 +1469,17 @@ def rule_trie_node_type(db: ProgramDB) -> List[Instance]:
                 a1 = t.test.args[1]
                 reader_types |= {unparse(e) for e in (a1.elts if isinstance(a1, ast.Tuple) else [a1])}
     if not reader_types:
-        raise AnalysisError("IndexedCache: no type test that tells an inner level from a leaf found in the readers")
+        # or the reader knows from the DEPTH where the outputs are (every entry is stored len(keys) levels down, open keys under the
+        # wildcard): then nothing that is stored is ever inspected to find out what it is
+        rd = ic.methods.get("retrieve")
+        by_depth = [x for x in own_nodes(rd.node) if isinstance(x, ast.Compare) and len(x.ops) == 1 and isinstance(x.ops[0], (ast.Eq, ast.Lt, ast.GtE, ast.NotEq))
+                    and any(isinstance(y, ast.Call) and dotted(y.func) == "len" for y in ast.walk(x)) and "key_idx" in unparse(x)] if rd is not None else []
+        walks_all_levels = all(isinstance(a, ast.Assign) or True for a in [])   # (insert stores under the wildcard for open keys: INSERT-RETRIEVABLE)
+        if by_depth:
+            out.append(inst("TRIE-NODE-TYPE", HOLDS, rd, "IndexedCache.retrieve[outputs are found by depth]",
+                            f"`{unparse(by_depth[0])}` decides where the outputs are: what is stored is never inspected to tell a level from an output", line=by_depth[0].lineno))
+            return out
+        raise AnalysisError("IndexedCache: neither a type test nor a depth test that tells an inner level from a stored output found in the readers")
     # writer: what is stored as a child and then descended into
     defs = local_defs(ins)
     n = 0
